@@ -1,1 +1,27 @@
-From Verif Require Import Base.
+(* C16 — UpdateDecoder partitions an UPDATE exactly as its length fields dictate. *)
+From Verif Require Import Base Consts Packet Errors Update PacketSpec UpdateSpec UpdateProofs.
+
+(* For every byte string and callbacks that return nil, the sequence of callback
+   invocations (withdrawn bytes; each first-occurrence attribute in wire order with type,
+   flags and value honouring Extended Length; later duplicates skipped; a repeated
+   MP_REACH/MP_UNREACH aborts; an overrun ends attribute iteration but the NLRI is still
+   delivered) is exactly the specification's spec_calls. *)
+Theorem c16_calls : forall sc b,
+  nil_script sc -> wf_bytes b = true ->
+  exists e, update_decode sc b = Ok (spec_calls b, e).
+Proof. exact decode_calls_spec. Qed.
+Print Assumptions c16_calls.
+
+(* length fields that overrun the message abort decoding before any callback runs,
+   whatever the callbacks are *)
+Theorem c16_overrun_first : forall sc b,
+  wf_bytes b = true -> spec_sections b = None ->
+  exists n, update_decode sc b = Ok ([], Some (ENotif n)).
+Proof. exact decode_overrun_no_callback. Qed.
+Print Assumptions c16_overrun_first.
+
+(* a concrete, non-trivial instance: duplicate ORIGIN skipped, extended length honoured *)
+Example c16_example :
+  spec_calls [0; 1; 0;  0; 12;  64; 1; 1; 0;  64; 1; 1; 2;  80; 2; 0; 0;  8; 10]
+  = [CWr [0]; CPa 1 64 [0]; CPa 2 80 []; CNl [8; 10]].
+Proof. vm_compute. reflexivity. Qed.
